@@ -20,6 +20,16 @@ CHECKS = {
             "Stabilisation table written by hand from the Rust release notes; only rustc 1.95 is installed so older targets "
             "are judged by token scan; trigger headers cover the gated constructs listed in the property.",
             "6/C14"),
+    "C13": ("exploration",
+            "exhaustive enumeration of option rows x value domains, all boolean pairs, interacting pairs and header multiplicities; "
+            "each configuration executed in both directions on the real builder / CLI parser in worker processes",
+            "Every option row (hand-written flag<->method table, completeness checked against --help and options/mod.rs) is "
+            "round-tripped builder->flags->builder (flag list fix-point, byte-identical bindings on a C and a C++ feature header) "
+            "and compared flag-vs-documented-method; all pairs of boolean rows and 30 interacting pairs likewise.",
+            "The correspondence table is hand-written from the help text; options that cannot be expressed on the command line "
+            "(callbacks, header_contents, rustfmt path) are outside the claim; quick tier runs a VERIF_SEED-rotated quarter of the "
+            "boolean pairs.",
+            "6/C13"),
 }
 
 NOT_YET = "check not built yet in this round (see DESIGN.md section 10a for the plan)"
